@@ -18,10 +18,16 @@ LOCALES = {
     "CH": ([["pref", "Language", "de-ch"], ["pref", "DecimalSeparator", "Auto"]], ",", [".", "'"]),
 }
 # two locales set through the separator preferences directly; each differs from US in exactly one of the two preferences
+# language tags with a country that overrides the language's separators, in both spellings of the tag (BCP 47 writes the country in
+# capitals); the separators are those of CLDR: Mexico uses the period as decimal mark, Switzerland the apostrophe as group separator
+LOCALES["MX"] = ([["pref", "Language", "es-MX"], ["pref", "DecimalSeparator", "Auto"]], ".", [","])
+LOCALES["mx"] = ([["pref", "Language", "es-mx"], ["pref", "DecimalSeparator", "Auto"]], ".", [","])
+LOCALES["CHuc"] = ([["pref", "Language", "de-CH"], ["pref", "DecimalSeparator", "Auto"]], ",", [".", "'"])
 LOCALES["USb"] = (LOCALES["US"][0] + [["pref", "BlockSeparators", ",   ٬"]], ".", ["٬"])
 LOCALES["USd"] = (LOCALES["US"][0] + [["pref", "DecimalSeparators", ".٫"]], "٫", [","])
 _SP = "   "
-LOCALE_BLOCKS = {"US": "," + _SP, "EU": "." + _SP, "SV": "." + _SP, "CH": "." + _SP + "'", "USb": "," + _SP + "٬", "USd": "," + _SP}
+LOCALE_BLOCKS = {"US": "," + _SP, "EU": "." + _SP, "SV": "." + _SP, "CH": "." + _SP + "'", "USb": "," + _SP + "٬", "USd": "," + _SP,
+                 "MX": "," + _SP, "mx": "," + _SP, "CHuc": "." + _SP + "'"}
 # locale histories: the separators in force must be those of the *current* preferences, whatever was used before
 HISTORIES = [("US", "USb"), ("US", "USd"), ("USb", "US"), ("USd", "USb"), ("EU", "CH"), ("CH", "EU"), ("US", "EU"), ("EU", "US"), ("SV", "US"), ("US", "CH")]
 
